@@ -19,6 +19,8 @@ rows = []
 for d in sorted(glob.glob(f'{DST}/C*/{rnd}-m*')):
     if not os.path.isfile(f'{d}/patch.diff'):
         continue
+    if not d.endswith('p') and os.path.isfile(f'{d}p/patch.diff'):
+        continue  # superseded by the variant ported onto the repaired tree
     prop = d.split('/')[-2]
     tag = d.split('/')[-1]
     notes_md = open(f'{d}/notes.md').read() if os.path.isfile(f'{d}/notes.md') else ''
